@@ -263,24 +263,53 @@ def build_model(prop, timeout=900):
 # --------------------------------------------------------------------------
 _harness_built = {}
 
+REPO = os.environ.get("MECH_REPO", "/repo")     # testing aid only: registered commands never set MECH_REPO
+
+
+def alt_target(target):
+    """With MECH_REPO set (running the checks against a scratch worktree, e.g. a seeded change, without touching
+    /repo) the harness crate is copied with its /repo paths rewritten and built into a separate target directory."""
+    if REPO == "/repo":
+        return target
+    return os.path.join(CACHE, "alt", os.path.basename(target))
+
+
 def build_harness(crate="harness", timeout=3000, target=None):
     """target: optional CARGO_TARGET_DIR of a plugin's own harness crate (plugin.TARGET_DIR); default: the shared one"""
     if crate in _harness_built:
         return _harness_built[crate]
     d = os.path.join(ROOT, crate)
-    lock = os.path.join(d, "Cargo.lock")
-    if not os.path.exists(lock) or os.path.getmtime(lock) < os.path.getmtime("/repo/Cargo.lock"):
-        pass  # keep our own lock: it is a superset resolved offline once (see harness/README)
-    env = {"RUSTFLAGS": "--cfg %s" % GUARD, "RUSTC_BOOTSTRAP": "1", "CARGO_TARGET_DIR": target or TARGET}
+    tgt = target or TARGET
+    if REPO != "/repo":
+        alt = os.path.join(CACHE, "alt", crate)
+        os.makedirs(os.path.join(alt, "src"), exist_ok=True)
+        os.makedirs(os.path.join(alt, ".cargo"), exist_ok=True)
+        for f in os.listdir(os.path.join(d, "src")):
+            src = open(os.path.join(d, "src", f)).read()
+            dst = os.path.join(alt, "src", f)
+            if not os.path.exists(dst) or open(dst).read() != src:
+                open(dst, "w").write(src)
+        for f in ("Cargo.toml", "Cargo.lock", ".cargo/config.toml"):
+            if os.path.exists(os.path.join(d, f)):
+                txt = open(os.path.join(d, f)).read().replace("/repo", REPO)
+                dst = os.path.join(alt, f)
+                if not os.path.exists(dst) or open(dst).read() != txt:
+                    open(dst, "w").write(txt)
+        d = alt
+        tgt = alt_target(tgt)
+    env = {"RUSTFLAGS": "--cfg %s" % GUARD, "RUSTC_BOOTSTRAP": "1", "CARGO_TARGET_DIR": tgt, "CARGO_INCREMENTAL": "0"}
     rc, out = run(["cargo", "build", "--offline", "--quiet"], cwd=d, timeout=timeout, env=env)
     ok = rc == 0
     _harness_built[crate] = (ok, out[-6000:])
     return _harness_built[crate]
 
 
+RLIMIT_AS_BYTES = [8 << 30]     # a plugin may lower it (C07: an allocation of gigabytes for a tiny file must fail visibly)
+
+
 def _limit():
     try:
-        resource.setrlimit(resource.RLIMIT_AS, (8 << 30, 8 << 30))
+        resource.setrlimit(resource.RLIMIT_AS, (RLIMIT_AS_BYTES[0], RLIMIT_AS_BYTES[0]))
         resource.setrlimit(resource.RLIMIT_CORE, (0, 0))
     except Exception:
         pass
